@@ -327,6 +327,9 @@ class Check:
             vio_lines.append(f"VIOLATION property={self.prop} replay={path}" + (" no-failing-input-found" if v["no_input"] else ""))
             if len(vio_lines) >= 5:
                 break
+        os.makedirs(BUILD, exist_ok=True)
+        with open(os.path.join(BUILD, f"violations_{self.prop}.json"), "w") as fh:
+            json.dump([{"what": v["what"], "tags": v["tags"], "replay": v["replay"], "no_input": v["no_input"]} for v in unknown], fh, indent=1, default=str)
         cov = {
             "obligations": self.obligations,
             "discharged": self.discharged,
